@@ -77,6 +77,14 @@ CHECKS = {
         'ref': 'DESIGN.md section 3 C13', 'note': NOTE_COMMON,
         'technique': 'deterministic simulation: in-memory file layer with faults + lock/thread/heap bookkeeping around start/stop',
     },
+    'C15': {
+        'text': 'Seeded node trees (nested interfaces, unknown ids, absent boards), node-table changes in the middle of the start-up enumeration and afterwards sequences of '
+                'node-lost / node-new notices incl. interfaces with children and re-login at another address; a connectivity model driven by the same notices is compared with the '
+                'connectivity getters after every notice, the acknowledgement must be on the wire when the notice is known processed, and commands go to the model\'s current '
+                'address of connected boards only.',
+        'ref': 'DESIGN.md section 3 C15', 'note': NOTE_COMMON,
+        'technique': 'deterministic simulation: SimBus topology events (incl. during start-up) + connectivity reference model',
+    },
     'C16': {
         'text': 'Seeded sequences of 2-5 sessions in one process (debug / pointer / simulated serial device / silent interface / unopenable device / missing configuration file, '
                 'auto-flush on or off, stop-while-stopped, start-while-running) with activity in between. Oracles: start result, shutdown transcript, thread create/join '
@@ -84,6 +92,13 @@ CHECKS = {
                 'equality of the last session with a reference copy of itself run on process-start static state.',
         'ref': 'DESIGN.md section 3 C16', 'note': NOTE_COMMON,
         'technique': 'deterministic simulation: multi-session histories + thread/heap bookkeeping + fresh-state differential',
+    },
+    'C19': {
+        'text': 'Seeded worlds with Secure-ACK enabled / disabled / absent per board, occupancy reports of all four kinds from several boards interleaved with sender tasks, '
+                'optionally while the reporting board is stalled; every report of a SecAck board must produce exactly one mirror with the same payload, in order, already on '
+                'the wire when the report is known processed (no flush by the application, auto-flush off) unless a stall impedes it; other boards never receive mirrors.',
+        'ref': 'DESIGN.md section 3 C19', 'note': NOTE_COMMON,
+        'technique': 'deterministic simulation: SimBus report events + wire oracle at the moment of known processing',
     },
 }
 
